@@ -498,7 +498,13 @@ func CheckKVStep(op Op, env Env, pre, post KVObs, res Result) []Violation {
 					c.add("C08", "event.count", "feed %s received %d events for one successful mutation: %v", fn, len(evs), evs)
 					continue
 				}
-				CheckEventAgainstDoc(c, "event", []string{"C08"}, evs[0], key, postDoc)
+				props := []string{"C08"}
+				if pre.W != nil {
+					// with same-key witnesses around, an event that does not describe this collection's
+					// own document is also a failure of isolation
+					props = append(props, "C11")
+				}
+				CheckEventAgainstDoc(c, "event", props, evs[0], key, postDoc)
 			}
 		}
 	}
